@@ -18,7 +18,7 @@ def main():
         for f in arg("--merge").split(","):
             if os.path.exists(f): results.update(json.load(open(f)))
         json.dump(results, open(res_path, "w"), indent=1, sort_keys=True)
-        only = set()
+        only = {"<none>"}       # merge only: run nothing (an empty set would mean "all")
     ids = sorted(d for d in os.listdir(SEEDED) if os.path.isfile(os.path.join(SEEDED, d, "meta.json")))
     for sid in ids:
         if only and sid not in only: continue
